@@ -131,6 +131,10 @@ impl Check for C18 {
                         &b"PROXY UNKNOWN "[..],
                         &b"PROXY TCP6 ::1 ::1 1 "[..],
                         &b"PROXY TCP4 1.1.1.1 1.1.1.1 1 1"[..],
+                        &b"PROXY TCP4 1.1.1.1 1.1.1.1 "[..],
+                        &b"PROXY TCP4 1.1.1.1 "[..],
+                        &b"PROXY TCP4 "[..],
+                        &b"PROXY TCP6 ::1 "[..],
                         &b"PROX"[..],
                     ]);
                     let fill = *rng.pick(b"a1 .:\n\0Y");
@@ -138,8 +142,11 @@ impl Check for C18 {
                     while stream.len() < n {
                         stream.push(fill);
                     }
-                    if rng.chance(1, 3) {
-                        stream.extend_from_slice(b"\r\n");
+                    match rng.below(4) {
+                        0 => stream.extend_from_slice(b"\r\n"),
+                        // a CR that is (for a while) the last byte of an over-long line
+                        1 => stream.push(b'\r'),
+                        _ => {}
                     }
                     sc.set_tag("peer", "cr_free_filler");
                 }
@@ -224,6 +231,8 @@ impl Check for C18 {
             let mut local: Vec<Violation> = Vec::new();
             let mut panicked = false;
             let mut p_held = false;
+            // (length of the buffer at which the precondition first held)
+            let mut final_since: Option<usize> = None;
             let end = drive(sc, ReadSizing::Fill, |step| {
                 let b = view(entry, step.buf);
                 let cr = b.iter().position(|c| *c == b'\r');
@@ -256,8 +265,38 @@ impl Check for C18 {
                         _ => {}
                     }
                 }
+                if !p {
+                    if let Some(at) = final_since {
+                        // "final": the verdict was complete with fewer bytes (the precondition held
+                        // at `at` bytes); more bytes must not reopen it
+                        st.oracle_evals += 1;
+                        st.hit("probe:finality_checked_after_precondition_lapsed");
+                        if !v.is_complete() {
+                            local.push(viol(
+                                "C18",
+                                "verdict_reopened",
+                                entry,
+                                b,
+                                v.kind(),
+                                format!(
+                                    "the verdict was final with {} bytes; with {} bytes {:?} the result is the incomplete {} again",
+                                    at,
+                                    b.len(),
+                                    printable(b, 140),
+                                    v.kind()
+                                ),
+                            ));
+                            return false;
+                        }
+                        // keep reading: a CR as last byte is the only way to get here
+                        return true;
+                    }
+                }
                 if p {
                     p_held = true;
+                    if final_since.is_none() {
+                        final_since = Some(b.len());
+                    }
                     st.oracle_evals += 1;
                     if !v.is_complete() {
                         let clause = if cr.is_some() {
@@ -282,7 +321,9 @@ impl Check for C18 {
                         return false;
                     }
                 }
-                !v.is_complete()
+                // an undecided receiver keeps reading; a decided one keeps *observing* when the
+                // buffer was CR-free (a later CR as last byte lapses the literal precondition)
+                !v.is_complete() || (cr.is_none() && b.len() >= 107)
             });
             if entry == Entry::V1Bytes {
                 count_transport(st, sc, &end);
